@@ -114,6 +114,82 @@ def evaluate(item):
     return r
 
 
+# ---- mode B: operation histories on the bare Limits object -------------------------------------------
+
+def b_configs(tier):
+    for start, dur_days in (("2025-01-06", 14), ("2024-12-23", 21), ("2026-12-21", 21), ("2025-01-08-13:00", 10)):
+        for kind, val in (("dailymax", 2.0), ("dailymax", 1.5), ("weeklymax", 3.0), ("weeklymax", 2.5)):
+            for L in (60, 30):
+                yield {"start": start, "days": dur_days, "kind": kind, "val": val, "L": L, "depth": 3 if tier == "quick" else 4}
+
+
+def b_slots(cfg):
+    """distinguished slot indices: first/last slot of a day, of an ISO week, of the year, of the declared interval, beyond it"""
+    from datetime import timedelta
+    from mc.ref.calendar import parse_date
+
+    st = parse_date(cfg["start"])
+    L = cfg["L"] * 60
+    per_day = 86400 // L
+    n = cfg["days"] * per_day
+    idx = lambda t: int((t - st).total_seconds() // L)  # noqa: E731
+    day1 = (st + timedelta(days=1)).replace(hour=0, minute=0)
+    mon = st + timedelta(days=(7 - st.weekday()) % 7 or 7)
+    mon = mon.replace(hour=0, minute=0)
+    picks = {0, 1, idx(day1) - 1, idx(day1), idx(mon) - 1, idx(mon), idx(mon) + per_day, n - 1, n, n + 1, n + per_day, n + 7 * per_day}
+    ny = st.replace(year=st.year + 1, month=1, day=1, hour=0, minute=0)
+    if 0 < idx(ny) < n + 8 * per_day:
+        picks |= {idx(ny) - 1, idx(ny)}
+    return sorted(p for p in picks if p >= 0)
+
+
+def evaluate_b(cfg):
+    """exhaustive DFS over histories of book attempts at the distinguished slots on the real Limits object"""
+    from datetime import timedelta
+    from mc import grids, render
+    from mc.ref.calendar import parse_date
+    from scriptplan.core.limits import Limits
+
+    st = parse_date(cfg["start"])
+    L = cfg["L"] * 60
+    proj = grids._fresh_project(st, st + timedelta(days=cfg["days"]), L)
+    base = Limits()
+    base.setProject(proj)
+    base.setLimit(cfg["kind"], cfg["val"])
+    cap = int(cfg["val"] * 3600 // L)
+    slots = b_slots(cfg)
+
+    def period(i):
+        t = st + timedelta(seconds=i * L)
+        return t.date() if cfg["kind"] == "dailymax" else t.isocalendar()[:2]
+
+    viol, states, trans = [], set(), 0
+
+    def dfs(lim, counts, hist, depth):
+        nonlocal trans
+        states.add(tuple(sorted(counts.items())))
+        if depth == 0:
+            return
+        for i in slots:
+            trans += 1
+            ok = lim.ok(i)
+            have = counts.get(period(i), 0)
+            if ok and have >= cap and len(viol) < 3:
+                viol.append((cfg["kind"], f"Limits.ok({i}) is True after history {hist} although {have} slots (cap {cap} = {cfg['val']}h at "
+                                          f"{cfg['L']}min) are already counted in period {period(i)} (slot time {st + timedelta(seconds=i * L)})"))
+            if ok:
+                l2 = lim.copy()
+                # copy() resets counters: replay the history on the copy
+                for j in hist + [i]:
+                    l2.inc(j)
+                c2 = dict(counts)
+                c2[period(i)] = have + 1
+                dfs(l2, c2, hist + [i], depth - 1)
+
+    dfs(base.copy(), {}, [], cfg["depth"])
+    return {"k": render.key(cfg), "v": viol, "nt": True, "s": [hash((cfg["start"], cfg["kind"], s)) for s in list(states)[:2000]], "tr": trans}
+
+
 def payload(item, clause, detail):
     from mc import render
     spec = to_spec(item)
@@ -134,13 +210,23 @@ def trait(item, clause, detail, fid):
 def run(ctx):
     st = Stats()
     explore(ctx, universe(ctx.tier), "mc.props.c05:evaluate", st, payload=payload, sample_of=sample, trait=trait, timeout=300)
+    na = st.evaluations
+    explore(ctx, b_configs(ctx.tier), "mc.props.c05:evaluate_b", st, payload=lambda it, c, d: {"item": it, "detail": d, "mode": "B"},
+            sample_of=lambda it: {"mode B config": it, "distinguished slots": b_slots(it)}, timeout=600)
     common.vacuity_guard(ctx, st)
     cov = st.coverage(
         "product universe: 6 horizons (fits, overruns the declared end, 14 months, year ends 2024/2026/2020) x 12 limit values x 7 placements "
         "x resolutions x ASAP/ALAP x competing task; states = distinct schedule observations; transitions = placements + bookings; "
-        "non-trivial = the limit was reached in at least one day/week (it was binding)")
+        "non-trivial = the limit was reached in at least one day/week (it was binding). Mode B: for 32 configurations of the bare Limits "
+        "object every history (depth <= 3, thorough 4) of booking attempts at the distinguished slots (first/last slot of a day, an ISO week, "
+        "the year, the declared interval, and slots beyond it) - ok() must never allow a booking in a period that already holds the cap",
+        mode_a_projects=na, mode_b_configs=st.evaluations - na)
     return ctx.finish(cov, ASSUME)
 
 
 def replay(path):
+    import json
+    p = json.load(open(path))
+    if p.get("mode") == "B":
+        return common.generic_replay(path, evaluate_b)
     return common.generic_replay(path, evaluate)
